@@ -2,6 +2,7 @@ package main
 
 import (
 	"fmt"
+	"go/constant"
 	"go/token"
 	"go/types"
 	"sort"
@@ -1045,5 +1046,697 @@ func ruleSyncMapLock(c *Ctx, rule string, pkgFilter func(string) bool) {
 	}
 	if n == 0 {
 		c.Und(rule, "reads of SyncMap.Value", "-", "no read of a SyncMap's map found")
+	}
+}
+
+// ---- C12/fork-same-file --------------------------------------------------------------------------------------------------
+// A compiler forked for code of the SAME source file (a function literal: the
+// fork is given the forking compiler's own file) inherits the import context
+// unchanged: the module path and the module map handed to the fork are the
+// forking compiler's own fields.  A relative import written inside a function
+// of a module must resolve exactly as one written at the module's top level,
+// otherwise the same text names two different modules (one body run twice, two
+// objects) or none.
+func ruleForkSameFile(c *Ctx, rule string) {
+	l := c.L
+	fork := l.Method(modPath, "Compiler", "fork")
+	cs, fFile := l.structField(modPath, "Compiler", "file")
+	if !c.Anchor(rule, "Compiler.fork / Compiler.file", fork != nil && cs != nil && fFile >= 0 && len(fork.Params) >= 4) {
+		return
+	}
+	// parameters of fork by type: *ModuleMap, string (module path)
+	idxFile, idxPath, idxMap := -1, -1, -1
+	for i, p := range fork.Params {
+		if i == 0 {
+			continue
+		}
+		ts := p.Type().String()
+		switch {
+		case strings.HasSuffix(ts, "parser.SourceFile"):
+			idxFile = i
+		case ts == "string":
+			idxPath = i
+		case strings.HasSuffix(ts, ".ModuleMap"):
+			idxMap = i
+		}
+	}
+	if !c.Anchor(rule, "fork(file, modulePath, moduleMap, ...)", idxFile > 0 && idxPath > 0 && idxMap > 0) {
+		return
+	}
+	ownField := func(v ssa.Value, recv ssa.Value) (string, bool) {
+		ld, ok := v.(*ssa.UnOp)
+		if !ok || ld.Op != token.MUL {
+			return "", false
+		}
+		fa, ok := ld.X.(*ssa.FieldAddr)
+		if !ok || fa.X != recv {
+			return "", false
+		}
+		return cs.Field(fa.Field).Name(), true
+	}
+	n := 0
+	for _, ci := range l.RealCallers(fork) {
+		args := ci.Common().Args
+		if len(args) <= idxMap {
+			continue
+		}
+		recv := args[0]
+		if f, ok := ownField(args[idxFile], recv); !ok || f != "file" {
+			continue // a fork for another file (an imported module)
+		}
+		n++
+		_, okPath := ownField(args[idxPath], recv)
+		fm, okMap := ownField(args[idxMap], recv)
+		okMap = okMap && strings.Contains(strings.ToLower(fm), "map")
+		c.Check(rule, fnName(ci.Parent())+" | fork for the same file", l.Pos(ci.Pos()), okPath && okMap, "module path and module map are the forking compiler's own",
+			"a compiler forked for a function literal of the same file does not inherit the forking compiler's module path / module map: an import inside a function of a module resolves against another context than the same import at the module's top level (a second module body is run, or the file is not found)")
+	}
+	if n == 0 {
+		c.Und(rule, "Compiler.fork | same-file callers", l.Pos(fork.Pos()), "no caller forks a compiler for its own file: the rule no longer sees how function literals are compiled")
+	}
+}
+
+// ---- C14/throw-identity ----------------------------------------------------------------------------------------------------
+// A Go callee that ran a script function through an Invoker hands the script
+// function's error back as a Go error.  Where the VM turns a Go error into a
+// thrown error, an error that already is a *RuntimeError is thrown as that very
+// object: `err == sentinel` in a catch block, isError(err, sentinel) and
+// errors.Is on the host side see the same error whether the function was called
+// inside the script or from Go.
+func ruleThrowIdentity(c *Ctx, rule string) {
+	l := c.L
+	throw := l.Method(modPath, "VM", "throw")
+	rtErr := l.NamedType(modPath, "RuntimeError")
+	if !c.Anchor(rule, "VM.throw / type RuntimeError", throw != nil && rtErr != nil) {
+		return
+	}
+	n := 0
+	for _, fn := range l.RepoFuncs(func(pp string) bool { return pp == modPath }) {
+		// functions with an `error` parameter that call throw
+		var errParam *ssa.Parameter
+		for _, p := range fn.Params {
+			if isErrorType(p.Type()) {
+				errParam = p
+			}
+		}
+		if errParam == nil {
+			continue
+		}
+		var throws []*ssa.Call
+		eachInstr(fn, func(ins ssa.Instruction) {
+			if cl, ok := ins.(*ssa.Call); ok && cl.Call.StaticCallee() == throw {
+				throws = append(throws, cl)
+			}
+		})
+		if len(throws) == 0 {
+			continue
+		}
+		eachInstr(fn, func(ins ssa.Instruction) {
+			ta, ok := ins.(*ssa.TypeAssert)
+			if !ok || ta.X != ssa.Value(errParam) {
+				return
+			}
+			p, ok := ta.AssertedType.(*types.Pointer)
+			if !ok || !types.Identical(p.Elem(), rtErr) {
+				return
+			}
+			n++
+			same := false
+			for _, t := range throws {
+				if len(t.Call.Args) < 2 {
+					continue
+				}
+				v := t.Call.Args[1]
+				for d := 0; d < 4; d++ {
+					switch x := v.(type) {
+					case *ssa.ChangeType:
+						v = x.X
+						continue
+					case *ssa.Extract:
+						v = x.Tuple
+						continue
+					}
+					break
+				}
+				if v == ssa.Value(ta) {
+					same = true
+				}
+			}
+			c.Check(rule, fnName(fn)+" | an error that is a *RuntimeError", l.Pos(ta.Pos()), same, "thrown as the same object",
+				"a Go error that already is a *RuntimeError is not thrown as the same object (a copy or a wrapper is thrown): the error a script function raises loses its identity when the function is called from Go - `err == sentinel`, isError and errors.Is succeed for the in-script call and fail for the call through an Invoker")
+		})
+	}
+	if n == 0 {
+		c.Und(rule, "conversion of a Go error into a thrown error", "-", "no function asserts its error parameter to *RuntimeError before throwing: the rule no longer sees where Go errors re-enter the VM")
+	}
+}
+
+// ---- C02/blank-never-const -----------------------------------------------------------------------------------------------
+// The blank identifier can be declared any number of times (`_, v := f()`, a
+// second `const ( _ = iota; ...)` group).  It is therefore never made a
+// constant symbol: every call that defines a compile-time constant for a name
+// is reached only after the name was compared with "_" and found different, and
+// every store to a symbol's Constant flag stores false, or a value that is false
+// for "_".  A constant named _ makes the next blank declaration in the scope a
+// compile error ("assignment to constant variable").
+func ruleBlankNeverConst(c *Ctx, rule string) {
+	l := c.L
+	def := l.Method(modPath, "SymbolTable", "defineConstLit")
+	_, fConst := l.structField(modPath, "Symbol", "Constant")
+	if !c.Anchor(rule, "SymbolTable.defineConstLit / Symbol.Constant", def != nil && fConst >= 0) {
+		return
+	}
+	isBlank := func(v ssa.Value) bool {
+		k, ok := v.(*ssa.Const)
+		return ok && k.Value != nil && k.Value.Kind() == constant.String && constant.StringVal(k.Value) == "_"
+	}
+	// notBlankAt: on the way to block b the name was compared with "_" and differs
+	notBlankAt := func(name ssa.Value, b *ssa.BasicBlock) bool {
+		for _, g := range guardEdges(b) {
+			bo, ok := g.If.Cond.(*ssa.BinOp)
+			if !ok || (bo.Op != token.EQL && bo.Op != token.NEQ) {
+				continue
+			}
+			for _, pr := range [][2]ssa.Value{{bo.X, bo.Y}, {bo.Y, bo.X}} {
+				if isBlank(pr[1]) && (pr[0] == name || exprEq(pr[0], name)) {
+					if (bo.Op == token.NEQ) == g.Truth {
+						return true
+					}
+				}
+			}
+		}
+		return false
+	}
+	n := 0
+	for _, ci := range l.RealCallers(def) {
+		args := ci.Common().Args
+		if len(args) < 2 {
+			continue
+		}
+		n++
+		c.Check(rule, fnName(ci.Parent())+" | constant defined for a declared name", l.Pos(ci.Pos()), notBlankAt(args[1], ci.Block()), "reached only for names other than _",
+			"a compile-time constant is defined without the name having been compared with \"_\": a blank constant (`const _ = iota`) becomes a constant symbol named _, and the next blank target in the scope (`_, v := f()`, a second const group) fails to compile with 'assignment to constant variable'")
+	}
+	for _, fn := range l.RepoFuncs(func(pp string) bool { return pp == modPath }) {
+		if fn == def {
+			continue // the definer itself: its callers carry the obligation above
+		}
+		eachInstr(fn, func(ins ssa.Instruction) {
+			st, ok := ins.(*ssa.Store)
+			if !ok {
+				return
+			}
+			if _, ok := isFieldAddrOf(st.Addr, modPath, "Symbol", fConst); !ok {
+				return
+			}
+			if k, ok := st.Val.(*ssa.Const); ok && k.Value != nil && k.Value.Kind() == constant.Bool && !constant.BoolVal(k.Value) {
+				return // Constant = false
+			}
+			// a copy of another symbol's flag (free variables inherit it)
+			if ld, ok := st.Val.(*ssa.UnOp); ok && ld.Op == token.MUL {
+				if _, ok := isFieldAddrOf(ld.X, modPath, "Symbol", fConst); ok {
+					return
+				}
+			}
+			n++
+			// the stored value is false for "_": it is (a phi over) false and a
+			// comparison name != "_", or the store itself is guarded
+			okVal := false
+			var hasNE func(v ssa.Value, d int) bool
+			hasNE = func(v ssa.Value, d int) bool {
+				if d > 4 {
+					return false
+				}
+				switch x := v.(type) {
+				case *ssa.BinOp:
+					if x.Op == token.NEQ && (isBlank(x.X) || isBlank(x.Y)) {
+						return true
+					}
+				case *ssa.Phi:
+					// `a && name != "_"`: false on the short-circuit edges, the comparison on the other
+					all := true
+					any := false
+					for _, e := range x.Edges {
+						if k, ok := e.(*ssa.Const); ok && k.Value != nil && k.Value.Kind() == constant.Bool && !constant.BoolVal(k.Value) {
+							continue
+						}
+						if hasNE(e, d+1) {
+							any = true
+						} else {
+							all = false
+						}
+					}
+					return all && any
+				}
+				return false
+			}
+			okVal = hasNE(st.Val, 0)
+			if !okVal {
+				// guarded store: find the symbol's name compared with "_" on the way
+				for _, g := range guardEdges(st.Block()) {
+					if bo, ok := g.If.Cond.(*ssa.BinOp); ok && (isBlank(bo.X) || isBlank(bo.Y)) && (bo.Op == token.NEQ) == g.Truth {
+						okVal = true
+					}
+				}
+			}
+			c.Check(rule, fnName(fn)+" | Symbol.Constant set", l.Pos(st.Pos()), okVal, "false for the blank identifier",
+				"a symbol is flagged constant without the blank identifier being excluded: `const _ = f()` makes _ a constant and a later blank target in the same scope is a compile error")
+		})
+	}
+	if n == 0 {
+		c.Und(rule, "definitions of constants", "-", "no constant definition found")
+	}
+}
+
+// ---- C20/conv-passthrough ------------------------------------------------------------------------------------------------
+// A converter registered for a Go or uGO type wraps or unwraps a payload; it
+// does not compute one.  In every registered converter, the value returned is
+// built from the input by type assertions, conversions, dereferences, field
+// reads and by placing it into a new wrapper struct - or it is a constant / a
+// fresh empty value (the answer for nil).  No call whose result depends on the
+// payload (compacting, trimming, normalising, re-parsing) lies between input
+// and output: whatever bytes, time or location go in come out again.
+func ruleConvPassthrough(c *Ctx, rule string) {
+	l := c.L
+	reg := l.Func(modPath+"/registry", "RegisterObjectConverter")
+	regAny := l.Func(modPath+"/registry", "RegisterAnyConverter")
+	if !c.Anchor(rule, "registry.RegisterObjectConverter / RegisterAnyConverter", reg != nil && regAny != nil) {
+		return
+	}
+	n := 0
+	for _, ci := range append(append([]ssa.CallInstruction{}, l.StaticCallers(reg)...), l.StaticCallers(regAny)...) {
+		args := ci.Common().Args
+		if len(args) != 2 {
+			continue
+		}
+		var conv *ssa.Function
+		switch v := args[1].(type) {
+		case *ssa.MakeClosure:
+			conv, _ = v.Fn.(*ssa.Function)
+		case *ssa.Function:
+			conv = v
+		case *ssa.ChangeType:
+			if f, ok := v.X.(*ssa.Function); ok {
+				conv = f
+			}
+			if mc, ok := v.X.(*ssa.MakeClosure); ok {
+				conv, _ = mc.Fn.(*ssa.Function)
+			}
+		}
+		if conv == nil || len(conv.Blocks) == 0 || len(conv.Params) == 0 {
+			continue
+		}
+		var offender ssa.Value
+		var pure func(fn *ssa.Function, inputs map[ssa.Value]bool, v ssa.Value, depth int) bool
+		pure = func(fn *ssa.Function, inputs map[ssa.Value]bool, v ssa.Value, depth int) bool {
+			if depth > 12 {
+				offender = v
+				return false
+			}
+			if inputs[v] {
+				return true
+			}
+			switch x := v.(type) {
+			case *ssa.Const, *ssa.Global, *ssa.Function:
+				return true
+			case *ssa.Parameter:
+				offender = v
+				return false
+			case *ssa.TypeAssert:
+				return pure(fn, inputs, x.X, depth+1)
+			case *ssa.Extract:
+				return pure(fn, inputs, x.Tuple, depth+1)
+			case *ssa.ChangeType:
+				return pure(fn, inputs, x.X, depth+1)
+			case *ssa.ChangeInterface:
+				return pure(fn, inputs, x.X, depth+1)
+			case *ssa.Convert:
+				return pure(fn, inputs, x.X, depth+1)
+			case *ssa.MakeInterface:
+				return pure(fn, inputs, x.X, depth+1)
+			case *ssa.Field:
+				return pure(fn, inputs, x.X, depth+1)
+			case *ssa.FieldAddr:
+				return pure(fn, inputs, x.X, depth+1)
+			case *ssa.Phi:
+				for _, e := range x.Edges {
+					if !pure(fn, inputs, e, depth+1) {
+						return false
+					}
+				}
+				return true
+			case *ssa.UnOp:
+				if x.Op != token.MUL {
+					offender = v
+					return false
+				}
+				if g, ok := x.X.(*ssa.Global); ok {
+					_ = g
+					return true // a package-level value (ugo.Undefined)
+				}
+				return pure(fn, inputs, x.X, depth+1)
+			case *ssa.Alloc:
+				// a new wrapper (or a new empty array behind an empty slice): every value stored into it is pure
+				if x.Referrers() != nil {
+					for _, r := range *x.Referrers() {
+						switch st := r.(type) {
+						case *ssa.Store:
+							if st.Addr == ssa.Value(x) && !pure(fn, inputs, st.Val, depth+1) {
+								return false
+							}
+						case *ssa.FieldAddr:
+							if st.Referrers() != nil {
+								for _, rr := range *st.Referrers() {
+									if s2, ok := rr.(*ssa.Store); ok && s2.Addr == ssa.Value(st) && !pure(fn, inputs, s2.Val, depth+1) {
+										return false
+									}
+								}
+							}
+						}
+					}
+				}
+				return true
+			case *ssa.Slice:
+				// T{}: a slice of a fresh zero-length array
+				if al, ok := x.X.(*ssa.Alloc); ok {
+					if p, ok := al.Type().Underlying().(*types.Pointer); ok {
+						if arr, ok := p.Elem().Underlying().(*types.Array); ok && arr.Len() == 0 {
+							return true
+						}
+					}
+				}
+				offender = v
+				return false
+			case *ssa.MakeSlice:
+				if k, ok := x.Len.(*ssa.Const); ok && k.Value != nil && k.Value.ExactString() == "0" {
+					return true
+				}
+				offender = v
+				return false
+			case *ssa.MakeMap:
+				return true
+			case *ssa.Call:
+				com := x.Common()
+				g := com.StaticCallee()
+				// a getter of the repository on the input (no further arguments),
+				// or a repository helper: its results are pure in terms of its arguments
+				if g != nil && len(g.Blocks) > 0 && strings.HasPrefix(funcPkgPath(g), modPath) && depth < 6 {
+					in2 := map[ssa.Value]bool{}
+					for i, a := range com.Args {
+						if i < len(g.Params) && pure(fn, inputs, a, depth+1) {
+							in2[g.Params[i]] = true
+						}
+					}
+					okAll := true
+					eachInstr(g, func(ins ssa.Instruction) {
+						if r, ok := ins.(*ssa.Return); ok && len(r.Results) > 0 {
+							if !pure(g, in2, returnedValue(r, 0), depth+1) {
+								okAll = false
+							}
+						}
+					})
+					return okAll
+				}
+				if com.IsInvoke() && len(com.Args) == 0 {
+					// a zero-argument method of an interface held by the input (an accessor)
+					return pure(fn, inputs, com.Value, depth+1)
+				}
+				offender = v
+				return false
+			}
+			offender = v
+			return false
+		}
+		inputs := map[ssa.Value]bool{conv.Params[0]: true}
+		eachInstr(conv, func(ins ssa.Instruction) {
+			r, ok := ins.(*ssa.Return)
+			if !ok || len(r.Results) == 0 {
+				return
+			}
+			n++
+			offender = nil
+			okp := pure(conv, inputs, returnedValue(r, 0), 0)
+			what := ""
+			if offender != nil {
+				what = fmt.Sprintf("%s at %s", describe(offender), l.Pos(offender.Pos()))
+			}
+			key := fmt.Sprintf("%s | converter #%d | return", fnName(ci.Parent()), converterOrdinal(ci, l))
+			if k := countKey(key); k > 1 {
+				key += fmt.Sprintf(" #%d", k)
+			}
+			// a result that does not contain the input at all (a constant, an
+			// empty value) is the answer for a nil input only - unless the
+			// converter declines (second result false)
+			res0 := returnedValue(r, 0)
+			isInput := func(x ssa.Value) bool { return x == ssa.Value(conv.Params[0]) }
+			mentions := derivesFrom(res0, isInput, 8)
+			if al, ok := stripMI(res0).(*ssa.Alloc); ok && !mentions && al.Referrers() != nil {
+				for _, rr := range *al.Referrers() {
+					if fa, ok := rr.(*ssa.FieldAddr); ok && fa.Referrers() != nil {
+						for _, r2 := range *fa.Referrers() {
+							if st, ok := r2.(*ssa.Store); ok && derivesFrom(st.Val, isInput, 8) {
+								mentions = true
+							}
+						}
+					}
+				}
+			}
+			declines := false
+			if len(r.Results) > 1 {
+				if k, ok := returnedValue(r, 1).(*ssa.Const); ok && k.Value != nil && k.Value.Kind() == constant.Bool && !constant.BoolVal(k.Value) {
+					declines = true
+				}
+			}
+			if !mentions && !declines {
+				forNil := false
+				for _, g := range guardEdges(r.Block()) {
+					bo, ok := g.If.Cond.(*ssa.BinOp)
+					if !ok || (bo.Op != token.EQL && bo.Op != token.NEQ) {
+						continue
+					}
+					for _, pr := range [][2]ssa.Value{{bo.X, bo.Y}, {bo.Y, bo.X}} {
+						if k, ok := pr[1].(*ssa.Const); ok && k.IsNil() && derivesFrom(pr[0], isInput, 6) && (bo.Op == token.EQL) == g.Truth {
+							forNil = true
+						}
+					}
+				}
+				c.Check(rule, key+" | constant answer", l.Pos(r.Pos()), forNil, "given for a nil input only",
+					"the converter answers with a value that does not contain its input (nil, undefined, a constant) on a path where the input is not known to be nil: a non-nil value (an empty message, the zero time) crosses the boundary as something else")
+			}
+			c.Check(rule, key, l.Pos(r.Pos()), okp, "the result is the input re-typed, unwrapped or wrapped (or a constant / empty value)",
+				"the converter's result is computed from its input ("+what+"): the value that crosses the Go boundary is not the value that was handed over (e.g. a json.RawMessage comes back compacted, with different bytes)")
+		})
+	}
+	resetKeyCount()
+	if n == 0 {
+		c.Und(rule, "registered converters", "-", "no registered converter with a body found")
+	}
+}
+
+var keyCounts = map[string]int{}
+
+func countKey(k string) int { keyCounts[k]++; return keyCounts[k] }
+func resetKeyCount()        { keyCounts = map[string]int{} }
+
+// converterOrdinal: the position of the registering call among the
+// registering calls of its function (source order).
+func converterOrdinal(ci ssa.CallInstruction, l *Loaded) int {
+	n := 0
+	eachInstr(ci.Parent(), func(ins ssa.Instruction) {
+		if x, ok := ins.(ssa.CallInstruction); ok && x.Pos() <= ci.Pos() {
+			if f := x.Common().StaticCallee(); f != nil && f.Pkg != nil && f.Pkg.Pkg.Path() == modPath+"/registry" {
+				n++
+			}
+		}
+	})
+	return n
+}
+
+func stripMI(v ssa.Value) ssa.Value {
+	for {
+		switch x := v.(type) {
+		case *ssa.MakeInterface:
+			v = x.X
+		case *ssa.ChangeType:
+			v = x.X
+		default:
+			return v
+		}
+	}
+}
+
+// ---- C04/gob-register-cover ------------------------------------------------------------------------------------------------
+// Objects without a codec of their own (errors, ObjectPtr, the stdlib's
+// wrapper objects) are written through encoding/gob, and may hold any data
+// object in an interface-typed field.  gob can encode a value held in an
+// interface only if its concrete type was registered.  Every data object type
+// the encoder has a codec for - a uGO type U with an encoder type of the same
+// name and underlying type, U or *U implementing Object, no func-typed field -
+// is passed to gob.Register in the encoder package: otherwise a module
+// attribute such as EncoderOptions{Value: Map{...}} compiles and runs but its
+// Bytecode cannot be encoded.
+func ruleGobRegisterCover(c *Ctx, rule string) {
+	l := c.L
+	ep := l.ByPath[encPath]
+	up := l.ByPath[modPath]
+	objT := l.NamedType(modPath, "Object")
+	if !c.Anchor(rule, "packages ugo, encoder; interface Object", ep != nil && up != nil && objT != nil) {
+		return
+	}
+	obj := objT.Underlying().(*types.Interface)
+	registered := map[string]bool{}
+	for _, fn := range l.RepoFuncs(func(pp string) bool { return pp == encPath }) {
+		eachInstr(fn, func(ins ssa.Instruction) {
+			cl, ok := ins.(*ssa.Call)
+			if !ok {
+				return
+			}
+			f := cl.Call.StaticCallee()
+			if f == nil || f.Pkg == nil || f.Pkg.Pkg.Path() != "encoding/gob" || (f.Name() != "Register" && f.Name() != "RegisterName") {
+				return
+			}
+			a := cl.Call.Args[len(cl.Call.Args)-1]
+			if ci, ok := a.(*ssa.ChangeInterface); ok {
+				a = ci.X
+			}
+			if mi, ok := a.(*ssa.MakeInterface); ok {
+				registered[types.TypeString(mi.X.Type(), nil)] = true
+			} else {
+				// an interface-typed value (ugo.Undefined): the dynamic type of the global's initialiser
+				if ld, ok := a.(*ssa.UnOp); ok {
+					if g, ok := ld.X.(*ssa.Global); ok {
+						if v, ok := g.Object().(*types.Var); ok {
+							if t := initType(l.ByPath[g.Pkg.Pkg.Path()], v); t != nil {
+								registered[types.TypeString(t, nil)] = true
+							}
+						}
+					}
+				}
+			}
+		})
+	}
+	if !c.Anchor(rule, "gob.Register calls in the encoder", len(registered) >= 3) {
+		return
+	}
+	n := 0
+	sc := ep.Types.Scope()
+	for _, nm := range sc.Names() {
+		tn, ok := sc.Lookup(nm).(*types.TypeName)
+		if !ok {
+			continue
+		}
+		un, ok := up.Types.Scope().Lookup(nm).(*types.TypeName)
+		if !ok || !types.Identical(tn.Type().Underlying(), un.Type().Underlying()) {
+			continue
+		}
+		// a codec type: has MarshalBinary
+		hasCodec := false
+		for _, t := range []types.Type{tn.Type(), types.NewPointer(tn.Type())} {
+			ms := types.NewMethodSet(t)
+			if ms.Lookup(ep.Types, "MarshalBinary") != nil {
+				hasCodec = true
+			}
+		}
+		if !hasCodec {
+			continue
+		}
+		var form types.Type
+		if types.Implements(un.Type(), obj) {
+			form = un.Type()
+		} else if types.Implements(types.NewPointer(un.Type()), obj) {
+			form = types.NewPointer(un.Type())
+		} else {
+			continue // not an object (Bytecode)
+		}
+		if st, ok := un.Type().Underlying().(*types.Struct); ok {
+			fn := false
+			for i := 0; i < st.NumFields(); i++ {
+				if _, ok := st.Field(i).Type().Underlying().(*types.Signature); ok {
+					fn = true
+				}
+			}
+			if fn {
+				continue // a callable: not data
+			}
+		}
+		n++
+		fs := types.TypeString(form, nil)
+		c.Check(rule, "gob registration of "+tstr(form), l.Pos(tn.Pos()), registered[fs], "registered",
+			"the data object type "+tstr(form)+" has a codec but is not registered with gob: held in an interface-typed field of an object that is written through gob (an error's cause, EncoderOptions.Value, an ObjectPtr) it makes encoding fail with 'gob: type not registered for interface'")
+	}
+	if n == 0 {
+		c.Und(rule, "codec types", "-", "no data object type with a codec found")
+	}
+}
+
+// ---- C04/assert-inhabited --------------------------------------------------------------------------------------------------
+// A type assertion to a concrete type can succeed only if some value of that
+// type is ever placed into an interface from which the asserted operand can
+// come.  For every assertion in the given packages whose target is a concrete
+// type declared in the repository, the repository contains a conversion of a
+// value of exactly that type to the operand's interface type, to an interface
+// that converts to it implicitly, or to the empty interface (whole program,
+// every package analysed).  The codec types of the
+// encoder are distinct named types with the layout of the uGO types
+// (`type BuiltinFunction ugo.BuiltinFunction`): asserting an Object taken from
+// the VM's tables to the encoder's own type never succeeds, and the decoder
+// then rejects every encoded builtin function.
+func ruleAssertInhabited(c *Ctx, rule string, pkgFilter func(string) bool) {
+	l := c.L
+	// concrete type -> the interface types its values are converted to
+	inhabited := map[string][]types.Type{}
+	for _, fn := range l.RepoFuncs(nil) {
+		eachInstr(fn, func(ins ssa.Instruction) {
+			if mi, ok := ins.(*ssa.MakeInterface); ok {
+				k := types.TypeString(mi.X.Type(), nil)
+				inhabited[k] = append(inhabited[k], mi.Type())
+			}
+		})
+	}
+	n := 0
+	for _, fn := range l.RepoFuncs(pkgFilter) {
+		eachInstr(fn, func(ins ssa.Instruction) {
+			ta, ok := ins.(*ssa.TypeAssert)
+			if !ok {
+				return
+			}
+			t := ta.AssertedType
+			if _, isIface := t.Underlying().(*types.Interface); isIface {
+				return
+			}
+			base := t
+			if p, ok := t.(*types.Pointer); ok {
+				base = p.Elem()
+			}
+			nt, ok := base.(*types.Named)
+			if !ok || nt.Obj().Pkg() == nil || !strings.HasPrefix(nt.Obj().Pkg().Path(), modPath) {
+				return
+			}
+			n++
+			key := fmt.Sprintf("%s | .(%s)", fnName(fn), tstr(t))
+			if k := countKey(key); k > 1 {
+				key += fmt.Sprintf(" #%d", k)
+			}
+			// the interface a value must have been put into to arrive here: the
+			// operand's own interface type, one that converts to it implicitly, or
+			// the empty interface (from which it can be asserted)
+			opI, _ := ta.X.Type().Underlying().(*types.Interface)
+			can := false
+			for _, j := range inhabited[types.TypeString(t, nil)] {
+				ji, ok := j.Underlying().(*types.Interface)
+				if !ok {
+					continue
+				}
+				if ji.NumMethods() == 0 || opI == nil || types.Identical(j, ta.X.Type()) || types.Implements(j, opI) {
+					can = true
+				}
+			}
+			c.Check(rule, key, l.Pos(ta.Pos()), can, "values of the asserted type are placed into such an interface somewhere in the repository",
+				"no value of type "+tstr(t)+" is ever converted to "+tstr(ta.X.Type())+" (or to an interface convertible to it) anywhere in the repository, so this assertion can never succeed: the branch that depends on it is dead (the decoder rejects every encoded builtin function with 'not a ugo.BuiltinFunction type')")
+		})
+	}
+	resetKeyCount()
+	if n == 0 {
+		c.Und(rule, "type assertions to repository types", "-", "none found")
 	}
 }
